@@ -65,27 +65,150 @@ def check_C01(K, prop, tier, seed, t0):
                   "distinct_nontrivial = configurations that produced at least one token")
 
 
-def trace_only(profile, n_quick, n_thorough, rule):
+def equiv_check(kinds, what):
+    """C02 (kinds mode/la) and C03 (kind min): dump the automata the code compiles for generated,
+    random and corpus programs and let TLC explore the product with the specification's own
+    automaton (C02) or with the automaton before minimisation (C03)."""
     def chk(K, prop, tier, seed, t0):
-        n = n_quick if tier == "quick" else n_thorough
-        reps = [K.run_trace_leg(prop, "T-" + profile, profile, n, seed, shards=12)]
+        q = tier == "quick"
+        tabs = [K.emit_tables(prop, "tab-pairs", dict(CFGS="U_C01_pairs", HI=1200 if q else "Len(Cfgs)")),
+                K.emit_tables(prop, "tab-singles", dict(CFGS="U_C01_singles", HI=1500 if q else "Len(Cfgs)")),
+                K.emit_tables(prop, "tab-la", dict(CFGS="U_C04", SYMS="Syms_C04", HI=600 if q else "Len(Cfgs)"))]
+        n = 150 if q else 3000
+        sources = ["tables:" + t for t in tabs] + [f"random:c01:{n}:{seed}", f"random:c04:{n}:{seed}",
+                                                     f"random:c06:{n}:{seed}", "corpus"]
+        out, info = K.harness_dump(prop, "dump", sources)
+        cases_path = os.path.join(out, "cases.json")
+        with open(cases_path) as f:
+            cases = json.load(f)
+        with open(os.path.join(out, "problems.json")) as f:
+            problems = json.load(f)
+        mine = [c for c in cases if c["kind"] in kinds]
+        sel = os.path.join(out, "selected.json")
+        with open(sel, "w") as f:
+            json.dump(mine, f)
+        dist, gen, diffs, statics = K.run_equiv(prop, "equiv", sel, workers=12)
+        K.log(f"[equiv] {prop}: {info['programs']} programs, {len(mine)} cases, {dist} product states, "
+              f"{len(diffs)} differences, {len(statics)} static problems, {len(problems)} dump problems")
+        # one violation per case
+        viol_files = []
+        vdir = os.path.join(out, "viol")
+        os.makedirs(vdir, exist_ok=True)
+        seen = set()
+        def emit(case, extra):
+            if case in seen:
+                return
+            seen.add(case)
+            c = mine[case - 1]
+            v = dict(kind="equiv", case_kind=c["kind"], origin=c["origin"], mode=c["mode"], patterns=c["desc"],
+                     configurations=[c["desc"]], inputs=[extra.get("word_text", "")], calls_specified=[], **extra)
+            path = os.path.join(vdir, f"v{len(viol_files)}.json")
+            with open(path, "w") as f:
+                json.dump(v, f, ensure_ascii=False, indent=1)
+            viol_files.append(path)
+        for dd in sorted(diffs, key=lambda x: len(x["word"])):
+            c = mine[dd["case"] - 1]
+            text = "".join(chr(c["rep"][a - 1]) for a in dd["word"])
+            emit(dd["case"], dict(word_atoms=dd["word"], word_text=text,
+                                  accepted_by_specification_side=dd["accL"], accepted_by_compiled_automaton=dd["accR"],
+                                  difference="after reading this string the two automata accept different sets of token types"
+                                             if dd["word"] else "the empty string is accepted"))
+        for st in statics:
+            emit(st["case"], dict(difference="static problem: unregistered class id, foreign token type, or more states after minimisation"))
+        if "mode" in kinds:
+            for k, pb in enumerate(problems):
+                path = os.path.join(vdir, f"p{k}.json")
+                with open(path, "w") as f:
+                    json.dump(dict(kind="equiv", configurations=[pb["modes"]], inputs=[], calls_specified=[],
+                                   difference=pb["problem"], origin=pb["origin"]), f, ensure_ascii=False, indent=1)
+                viol_files.append(path)
+        unknown = K.report_violations(prop, viol_files, len(viol_files))
+        samples = [{"kind": c["kind"], "origin": c["origin"], "patterns": c["desc"][:4], "states": c["impl"]["n"], "atoms": c["natoms"]}
+                   for c in (mine[:2] + mine[-2:])]
+        cov = dict(programs=len(mine), disagreements_checked=len(diffs) + len(statics), samples=samples,
+                   states=dist, transitions=gen, evaluations=len(mine),
+                   distinct_nontrivial=sum(1 for c in mine if c["impl"]["n"] > 2),
+                   rule="one program = one compiled automaton (mode, lookahead or minimiser input/output pair) of a generated, random "
+                        "or corpus configuration; decided for ALL strings by exhaustive exploration of the product over the atoms "
+                        "(partition of all 1,112,064 scalars); non-trivial = more than 2 states",
+                   exhaustive=True, source_programs=info["programs"], skipped_unsupported=info["skipped_unsupported"],
+                   sources=sources, what=what)
+        K.write_evidence(prop, tier, seed, "translation_validation", cov,
+                         ["TLC and its Json module; regex-syntax parser; the verif_dump/verif_eval_class hooks copy the compiled data faithfully "
+                          "(cross-checked by the C01 trace legs which scan with the same automata)",
+                          "leaf membership over all scalars is measured through the public API on a scanner built from the leaf alone (C08 decides leaves)"],
+                         time.time() - t0, len(viol_files))
+        return 1 if unknown else 0
+    return chk
+
+
+def gt_check(gen_legs, profile, n_quick, n_thorough, rule):
+    """G legs (TLC-generated behaviours replayed) + one T leg (recorded random histories validated)."""
+    def chk(K, prop, tier, seed, t0):
+        q = tier == "quick"
+        legs = gen_legs(q, seed)
+        n = n_quick if q else n_thorough
+        fns = [(lambda nm=nm, p=p: K.run_gen_leg(prop, nm, p, workers=5, threads=4)) for nm, p in legs]
+        fns.append(lambda: K.run_trace_leg(prop, "T-" + profile, profile, n, seed, shards=6))
+        reps = K.run_legs(fns, parallel=4)
         return finish(K, prop, tier, seed, t0, "model_checking", reps, None, ASSUME_COMMON, rule)
     return chk
 
 
-CHECKS = {
-    "C01": check_C01,
-    "C04": trace_only("c04", 300, 5000, "random real-syntax modes with lookaheads, histories with set_offset"),
-    "C05": trace_only("c05", 300, 5000, "random real-syntax modes with two or more patterns and lookaheads"),
-    "C06": trace_only("c06", 300, 5000, "random mode graphs"),
-    "C07": trace_only("c07", 300, 5000, "hostile: nullable patterns"),
-    "C09": trace_only("c09", 300, 5000, "positions"),
-    "C10": trace_only("c10", 300, 5000, "offsets"),
-    "C11": trace_only("c11", 300, 5000, "peek"),
-    "C12": trace_only("c12", 300, 5000, "isolation"),
+HIST = '{"next", "peek", "setmode", "scsetmode", "newiter"}'
+
+LEGS = {
+    "C04": lambda q, seed: [
+        ("G-la-offsets", dict(CFGS="U_C04", SYMS="Syms_C04", MAXLEN=3, STARTOFFS='"all"', MOD=24 if q else 2, SEED=seed)),
+        ("G-la-len4", dict(CFGS="U_C04", SYMS="Syms_C04", MAXLEN=4, HI="NDeco", STARTOFFS='"all"')),
+    ],
+    "C05": lambda q, seed: [
+        ("G-pairs", dict(CFGS="U_C05", SYMS="Syms_C04", MAXLEN=4, MOD=10 if q else 1, SEED=seed)),
+    ],
+    "C06": lambda q, seed: [
+        ("G-scan", dict(CFGS="U_C06", SYMS="Syms_C06", MAXLEN=3 if q else 4, MOD=2 if q else 1, SEED=seed)),
+        ("G-hist", dict(CFGS="U_C06", SYMS="Syms_C06", MAXLEN=2, OPS=HIST, MAXDEPTH=3 if q else 4, DRAIN="FALSE",
+                        NITERS=2, PEEKNS="{1, 2}", MOD=400 if q else 60, SEED=seed)),
+    ],
+    "C07": lambda q, seed: [
+        ("G-nullable", dict(CFGS="U_C01_pairs", MAXLEN=3, OPS='{"next", "peek", "setoffset"}', MAXDEPTH=4, DRAIN="FALSE",
+                            PEEKNS="{2}", MOD=800 if q else 40, SEED=seed)),
+    ],
+    "C09": lambda q, seed: [
+        ("G-pos", dict(CFGS="U_C09", SYMS="Syms_C09", MAXLEN=3 if q else 4, OPS='{"nextpos", "setoffset"}', MAXDEPTH=5 if q else 6,
+                       DRAIN="FALSE", BACKONLY="TRUE", ALLPOS="TRUE", MOD=4 if q else 1, SEED=seed)),
+        ("G-scanpos", dict(CFGS="U_C09", SYMS="Syms_C09", MAXLEN=5 if q else 6, OPS='{"nextpos"}', MAXDEPTH=9, DRAIN="TRUE",
+                           ALLPOS="TRUE", MOD=2 if q else 1, SEED=seed)),
+    ],
+    "C10": lambda q, seed: [
+        ("G-offsets", dict(CFGS="U_C10", SYMS="Syms_C06", MAXLEN=3, OPS='{"next", "peek", "advance", "setoffset", "setmode"}',
+                           MAXDEPTH=4 if q else 5, DRAIN="FALSE", PEEKNS="{1, 2}", MOD=24 if q else 3, SEED=seed)),
+    ],
+    "C11": lambda q, seed: [
+        ("G-peek", dict(CFGS="U_C10", SYMS="Syms_C06", MAXLEN=3, OPS='{"next", "peek", "setmode"}', MAXDEPTH=4 if q else 5,
+                        DRAIN="FALSE", PEEKNS="{0, 1, 2, 3}", MOD=8 if q else 1, SEED=seed)),
+        ("G-peek-graphs", dict(CFGS="U_C06", SYMS="Syms_C06", MAXLEN=3, OPS='{"next", "peek"}', MAXDEPTH=3, DRAIN="FALSE",
+                               PEEKNS="{1, 3}", MOD=60 if q else 6, SEED=seed)),
+    ],
+    "C12": lambda q, seed: [
+        ("G-iters", dict(CFGS="U_C10", SYMS="Syms_C06", MAXLEN=2, OPS=HIST, MAXDEPTH=4 if q else 5, DRAIN="FALSE", NITERS=3,
+                         PEEKNS="{1}", SECOND="{2, 7}", MOD=3 if q else 1, SEED=seed)),
+    ],
 }
 
-
+CHECKS = {
+    "C01": check_C01,
+    "C02": equiv_check(("mode", "la"), "compiled automaton vs position automaton of the source patterns"),
+    "C03": equiv_check(("min",), "automaton before vs after Minimizer::minimize"),
+    "C04": gt_check(LEGS["C04"], "c04", 300, 6000, "modes with positive/negative/no lookaheads, every start offset; random real-syntax histories with set_offset"),
+    "C05": gt_check(LEGS["C05"], "c05", 300, 6000, "all ordered pairs of decorated patterns with at least one lookahead; random real-syntax modes with 2..5 patterns"),
+    "C06": gt_check(LEGS["C06"], "c06", 300, 6000, "all mode graphs with 1-2 modes (3 modes: a stride) x inputs; call histories with set_mode/peek/new iterators; random mode graphs"),
+    "C07": gt_check(LEGS["C07"], "c07", 300, 6000, "nullable pattern pairs with next/peek/set_offset histories; hostile random configurations"),
+    "C09": gt_check(LEGS["C09"], "c09", 300, 6000, "inputs over x, e-acute, newline with position queries for all scanned offsets after every call"),
+    "C10": gt_check(LEGS["C10"], "c10", 300, 6000, "core configurations x inputs x histories over next/peek/advance_to/set_offset/set_mode"),
+    "C11": gt_check(LEGS["C11"], "c11", 300, 6000, "peek_n(0..3) at every point of every history"),
+    "C12": gt_check(LEGS["C12"], "c12", 300, 6000, "up to three iterators over one scanner, interleaved"),
+}
 def replay(K, prop, path):
     p = subprocess.run([K.HARNESS, "replay1", path], text=True, stdout=subprocess.PIPE)
     print(p.stdout, end="")
